@@ -406,3 +406,17 @@ Proof.
       end.
 Qed.
 End ApiCalls.
+
+(* the lock-order obligation is really checked: "9 must be acquired before 4" (AOrder 4; ALock 9)
+   is accepted when 4 is free and rejected when 4 is already held *)
+Example order_respected_accepted :
+  check_prog [mkF "fulfill" true [mkC [] false 0 [mkE 0 [] false 0]]
+    (Some (SSeq (SAct (AOrder 4)) (SSeq (SAct (ALock 9)) (SSeq (SAct (ALock 4))
+          (SSeq (SAct (AUnlock 4)) (SAct (AUnlock 9)))))))] = true.
+Proof. vm_compute. reflexivity. Qed.
+
+Example order_inverted_rejected :
+  check_prog [mkF "fulfill" true [mkC [] false 0 [mkE 0 [] false 0]]
+    (Some (SSeq (SAct (ALock 4)) (SSeq (SAct (AOrder 4)) (SSeq (SAct (ALock 9))
+          (SSeq (SAct (AUnlock 9)) (SAct (AUnlock 4)))))))] = false.
+Proof. vm_compute. reflexivity. Qed.
